@@ -471,6 +471,33 @@ func (m *Machine) step(fr *frame) bool {
 			InstErr()
 		}
 		Throw(Resolve(b))
+	case "call_nth/2":
+		switch n := Deref(args[1]).(type) {
+		case *Var:
+		case Int:
+			if n < 0 {
+				DomErr("not_less_than_zero", n)
+			}
+			if n == 0 {
+				return false
+			}
+		default:
+			TypeErr("integer", n)
+		}
+		m.goals = &frame{goal: C("call", args[0]), cutB: len(m.cps), next: &frame{goal: &Cmp{F: "$nth", Args: []Term{nthRef{new(int64)}, args[1], Int(len(m.cps))}}, next: cont}}
+		return true
+	case "$nth/3":
+		// one more answer of the goal: the count is not undone on backtracking
+		cnt := args[0].(nthRef).n
+		*cnt++
+		if n, ok := Deref(args[1]).(Int); ok {
+			if int64(n) != *cnt {
+				return false
+			}
+			m.cutTo(int(args[2].(Int))) // the N-th answer is the last one asked for
+			return true
+		}
+		return m.unify(args[1], Int(*cnt))
 	case "findall/3":
 		return m.findall(args[0], args[1], args[2])
 	case "bagof/3":
@@ -518,6 +545,9 @@ func (m *Machine) step(fr *frame) bool {
 
 // catchRef smuggles a pointer through a term argument.
 type catchRef struct{ c *choice }
+
+// nthRef is the answer counter of one call_nth/2 activation.
+type nthRef struct{ n *int64 }
 
 func (m *Machine) ite(cond, then, els Term, cutB int, cont *frame) {
 	m.push(&choice{kind: cpAlt, alt: &frame{goal: els, cutB: cutB, next: cont}})
